@@ -230,7 +230,10 @@ class ClosedFormIASolver(IASolverBaseClass):
 
         if self._use_best_init is True:
             # xxxxx Case when the best solution should be used xxxxxxxxxxxx
-            best_sum_capacity = 0
+            # The sum capacity is never negative: start below zero so that
+            # the first initialization is always taken (with a very small
+            # power the sum capacity of every initialization is exactly 0.0)
+            best_sum_capacity = -1.0
             all_initializations = self._calc_all_F_initializations(Ns[0])
 
             # Lambda function to calculate the sum capacity from the SINR
